@@ -182,7 +182,9 @@ func runC16(s *kernel.Sim, cfg string) {
 		if len(b.billCalls) > calls {
 			call = b.billCalls[len(b.billCalls)-1]
 		}
-		s.Logf("refresh (backend fault %q): err=%v backend saw call=%v", fault, rerr, call != nil)
+		// The error's text depends on where gRPC's goroutines notice the
+		// failure (on a send or on the final receive): kept out of the trace.
+		s.Logf("refresh (backend fault %q): failed=%v backend saw call=%v", fault, rerr != nil, call != nil)
 		if rerr != nil {
 			return
 		}
